@@ -153,6 +153,12 @@ type Engine struct {
 	// same digit run produce the same result, so the inner loop can skip
 	// the entire run instead of trying each digit.
 	digitRunSkipSafe bool
+
+	// digitVerifyBounded is true when a failed anchored verification at a digit
+	// candidate reads a number of bytes bounded by the pattern (beyond a leading
+	// digit run that digitRunSkipSafe skips). Only then may every candidate be
+	// verified separately; otherwise that is O(n) per candidate, O(n^2) in total.
+	digitVerifyBounded bool
 }
 
 // Stats tracks execution statistics for performance analysis.
